@@ -7,21 +7,21 @@ def showHs : HsRes → String
   | .ok l r a i c sik k1 k2 => s!"ok local={l} remote={r} algs={a.toNat}/{i.toNat}/{c.toNat} sik={hexOf sik} k1={hexOf k1} k2={hexOf k2}"
   | .incorrectPassword => "badpw"
   | .error => "err"
-  | .crashed => "crashed"
+  | .crashed => "panic"
 
-/-- `hs <variant> <user> <pass> <kg> <priv> <lookup> <auth> <integ> <conf> <rm> <script>` -/
+/-- `hs <user> <pass> <kg> <priv> <lookup> <auth> <integ> <conf> <rm> <bmcpass> <bmckg> <script>`
+    (the BMC's own password / KG are only used by the harness's reference verdict) -/
 def evalHs (args : List String) : String :=
   match args with
-  | [variant, user, pass, kg, priv, lookup, auth, integ, conf, rm, script] =>
-    match parseHex user, parseHex pass, parseHex kg, priv.toNat?, lookup.toNat?, auth.toNat?, integ.toNat?, conf.toNat?,
-          parseHex rm, parseScript script with
-    | some user, some pass, some kg, some priv, some lookup, some auth, some integ, some conf, some rm, some script =>
-      let fixed := variant == "1"
+  | [user, pass, kg, priv, lookup, auth, integ, conf, rm, _bp, _bk, script] =>
+    match parseHex user, parseHex pass, parseHex kg, [priv, lookup, auth, integ, conf].mapM String.toNat?, parseHex rm,
+          parseScript script with
+    | some user, some pass, some kg, some [priv, lookup, auth, integ, conf], some rm, some script =>
       let o : Opts := { user := user, pass := pass, kg := kg, priv := UInt8.ofNat priv, lookup := lookup == 1
                         auth := UInt8.ofNat auth, integ := UInt8.ofNat integ, conf := UInt8.ofNat conf }
-      let (sent, r) := newSession realOpsFull (if fixed then 8 else 7) fixed fixed o rm script
-      let sentS := if sent.isEmpty then "-" else ",".intercalate (sent.map hexOf)
-      s!"sent={sentS} res={showHs r}"
-    | _, _, _, _, _, _, _, _, _, _ => "bad-op"
+      let (sent, r) := newSession realOps o rm script
+      s!"sent={showSent sent} res={showHs r}"
+    | _, _, _, _, _, _ => "bad-op"
   | _ => "bad-op"
+
 end Bmc.Driver
